@@ -586,6 +586,15 @@ func (in *Interp) convBasic(d, s *types.Basic, x Value) Value {
 		if _, ok := x.(*Value); ok {
 			return x
 		}
+		if t, ok := x.(*sym.Term); ok && isInt(s) {
+			// uintptr -> unsafe.Pointer: nil exactly for 0; any other value is some non-nil address
+			if in.truth(sym.Eq(t, sym.BV(0, int(t.W)))) {
+				return (*Value)(nil)
+			}
+			p := new(Value)
+			*p = Opaque{"address"}
+			return p
+		}
 		in.unsupported("conversion %s -> unsafe.Pointer", s)
 	case d.Info()&types.IsString != 0:
 		if s.Info()&types.IsString != 0 {
@@ -603,6 +612,14 @@ func (in *Interp) convBasic(d, s *types.Basic, x Value) Value {
 		}
 	case isInt(d):
 		switch x := x.(type) {
+		case *Value:
+			// unsafe.Pointer -> uintptr: 0 exactly for nil
+			if x == nil {
+				return sym.BV(0, Width(d))
+			}
+			t := in.fresh("uint64", 64)
+			in.assume(sym.Not(sym.Eq(t, sym.BV(0, 64))))
+			return t
 		case *sym.Term:
 			dw := Width(d)
 			switch {
